@@ -18,15 +18,22 @@ def build_file2(shape, seed=0, variant=0):
     xt = cands[h % len(cands)]
     yt = cands[(h // 37) % len(cands)]
     be = (h // 3) % 2 == 1
+    list_absent = (h // 5) % 2 == 1     # a channel without data in a segment is listed "no data" (else: not listed)
     out = []
     for j, s in enumerate(segs):
         objs, listed = [], []
         if s["nx"] > 0:
             objs.append({"p": X, "has": True, "n": s["nx"], "ty": xt})
             listed.append({"p": X, "kind": "full"})
+        elif list_absent:
+            objs.append({"p": X, "has": False, "n": 0, "ty": xt})
+            listed.append({"p": X, "kind": "nodata"})
         if s["ny"] > 0:
             objs.append({"p": Y, "has": True, "n": s["ny"], "ty": yt})
             listed.append({"p": Y, "kind": "full"})
+        elif list_absent:
+            objs.append({"p": Y, "has": False, "n": 0, "ty": yt})
+            listed.append({"p": Y, "kind": "nodata"})
         seg = {"meta": True, "newlist": True, "be": be, "il": il, "listed": listed, "objs": objs, "k": s["k"]}
         if s["lastx"] < s["nx"] or s["lasty"] < s["ny"]:
             sx, sy = enc.size_of(xt), enc.size_of(yt)
